@@ -1,4 +1,46 @@
-from vlib.core import Check, Family
+import glob
+import os
+import re
+from fractions import Fraction
+
+from vlib.core import Check, Family, REPO, LEAN
+
+
+def unit_constants(check, ctx):
+    """Soft tie A: the constants of conv/units and conv/rough, evaluated exactly like Go constant expressions (rational
+    arithmetic, rounded once to float64), next to the literals of OW/Kernels/C16/Units.lean. Recorded in the evidence;
+    never fails the check by itself (a wrong constant shows up as a bit-exact correspondence mismatch / oracle failure)."""
+    go = {}
+    exprs = {}
+    files = sorted(glob.glob(os.path.join(REPO, "conv", "units", "*.go"))) + sorted(glob.glob(os.path.join(REPO, "conv", "rough", "*.go")))
+    pending = []
+    for f in files:
+        src = re.sub(r"//.*", "", open(f).read())
+        for m in re.finditer(r"^\s*([A-Z][A-Z0-9_]*)\s*=\s*(.+?)\s*$", src, flags=re.M):
+            pending.append((m.group(1), m.group(2)))
+    for _ in range(4):   # constants may refer to constants of other files
+        for name, expr in pending:
+            if name in go:
+                continue
+            py = re.sub(r"(?<![\w.])(\d+\.?\d*(?:[eE][-+]?\d+)?)", r"Fraction('\1')", expr)
+            try:
+                go[name] = Fraction(eval(py, {"Fraction": Fraction, "__builtins__": {}}, dict(go)))
+                exprs[name] = expr
+            except Exception:
+                pass
+    lean = {}
+    src = open(os.path.join(LEAN, "OW", "Kernels", "C16", "Units.lean")).read()
+    for m in re.finditer(r"/-- `(?:rough\.)?([A-Z][A-Z0-9_]*) = .*?-/\s*def (\w+) .*?:= ([0-9.]+)", src, flags=re.S):
+        lean[m.group(1)] = (m.group(2), m.group(3))
+    table = {}
+    for name, (lname, lit) in sorted(lean.items()):
+        g = go.get(name)
+        table[name] = {"go_expr": exprs.get(name), "go_value": float(g) if g is not None else None,
+                       "lean_def": lname, "lean_literal": lit,
+                       "same_float64": (g is not None and float(g) == float(Fraction(lit)))}
+    ctx["info"]["unit_constants"] = table
+    ctx["info"]["unit_constants_all_match"] = all(v["same_float64"] for v in table.values())
+    return []
 
 EXACT = ("ApplyScalingFactor,DeliveryRatio,DepthToRate,FixedPartition,VariablePartition,RatingCurvePartition,"
          "Input,Sum,Gate,ComputeProportion,BaseflowFilter,PartitionDemand,"
@@ -8,7 +50,10 @@ POW = "BankErosion,USLEFineSedimentGeneration,DynamicSednetGully"   # math.Pow /
 
 CHECK = Check(
     "C16",
-    props_modules=["OW.Props.C16.Conversion", "OW.Props.C16.Partition"],
+    props_modules=["OW.Props.C16.Conversion", "OW.Props.C16.Partition", "OW.Props.C16.LoadGen",
+                   "OW.Props.C16.Sediment", "OW.Props.C16.Usle"],
+    extra_lake_targets=["OW.Props.C16"],
+    pre_steps=[unit_constants],
     families=[
         Family("K", rtol=None, args=["models=" + EXACT, "prop=C16", "n=150"], label="K-exact"),
         Family("K", rtol=1e-9, atol_scale=1e-12, args=["models=" + POW, "prop=C16", "n=250"], label="K-tol"),
@@ -48,3 +93,4 @@ META = dict(
     technique="Lean 4 proof (ring/linarith over the unfolded kernels, list induction for series) + differential "
               "correspondence model vs real code + Go-side identity oracles",
 )
+READY = True
